@@ -222,11 +222,6 @@ theorem nameInv_estep {s s' : St} (h : NameInv s) (st : EStep s s') : NameInv s'
     obtain ⟨n, hn⟩ := hu v hv
     exact ⟨n, by unfold St.incReg; dsimp only; rw [lookupValue_mapFrames (fun b => { b with reg := s.cur.reg + 1 }) (fun b => rfl)]; exact hn⟩
   | addErr k v l o => exact nameInv_same (s := s) rfl rfl h
-  | setPanic site =>
-    unfold St.setPanic
-    cases s.panic
-    · exact nameInv_same (s := s) rfl rfl h
-    · exact h
   | declare n v i hi _ _ hu hfresh => exact nameInv_declare h n v i hi hu hfresh
 
 theorem nameInv_step {s s' : St} (h : NameInv s) (st : Step s s') : NameInv s' := by
@@ -280,6 +275,11 @@ theorem nameInv_step {s s' : St} (h : NameInv s) (st : Step s s') : NameInv s' :
         · exact ⟨b0, by simp, hx⟩
         · exact ⟨b, by simp [hb], hx⟩
   | setReturn => exact nameInv_mapFrames _ (fun b => ⟨rfl, rfl, rfl⟩) h
+  | setPanic site =>
+    unfold St.setPanic
+    cases s.panic
+    · exact nameInv_same (s := s) rfl rfl h
+    · exact h
 
 theorem nameInv_steps {s s' : St} (h : NameInv s) (st : Steps s s') : NameInv s' := by
   induction st with
